@@ -8,6 +8,7 @@ follow-up assignments; overwrite=False keeps existing definitions; (C) copy_expr
 with a label rebound to a nested reference, compared with a manager built directly.
 """
 import random
+import re
 
 from vlib import gen, kf, lockstep, mgrmon
 from vlib import programs as P
@@ -127,6 +128,10 @@ def part_a(spec, rng, counters, digests, samples, violations, known):
         if not isinstance(e, R.BaseRef):
             continue
         text = str(e)
+        if re.search(r"\b(inf|nan)\b", text):
+            # a literal-only sub-term folded to a non-finite constant: outside the property's language
+            counters["skipped_non_finite_constant"] = counters.get("skipped_non_finite_constant", 0) + 1
+            continue
         counters["expressions_round_tripped"] = counters.get("expressions_round_tripped", 0) + 1
         wit = {"world": world, "term": term, "text": text}
         try:
@@ -214,6 +219,16 @@ def mirrored(real, twin, op, op2, counters, relab=False):
     return None
 
 
+def buildable(shadow, runner, term):
+    """Can Python build this term, and does it print with finite constants only (the property's language)?"""
+    try:
+        shadow.eval(term)
+        text = str(runner.build(term))
+    except Exception:
+        return False
+    return not re.search(r"\b(inf|nan)\b", text)
+
+
 def part_bc(spec, rng, counters, digests, samples, violations, known):
     import xdeps.tasks as T
     W = {"define": 0.5, "leafval": 0.2, "val": 0.1, "iop": 0.12, "unreg": 0.08, "ftask": 0, "knob": 0, "replace": 0,
@@ -238,8 +253,11 @@ def part_bc(spec, rng, counters, digests, samples, violations, known):
             continue
         real = ls.runner
         dump = real.mgr.dump()
+        if any(re.search(r"\b(inf|nan)\b", rhs) for _, rhs in dump):
+            counters["managers_skipped_non_finite_constant"] = counters.get("managers_skipped_non_finite_constant", 0) + 1
+            continue
         wit = {"world": hg.world, "ops": list(ls.ops)}
-        mode = rng.choice(["load", "load", "load-keep", "copy", "copy-rebind", "copy-keep"])
+        mode = rng.choice(["load", "load", "load-keep", "copy", "copy-rebind", "copy-keep", "copy-rebind-keep"])
         counters["mode_" + mode] = counters.get("mode_" + mode, 0) + 1
         relab = False
         try:
@@ -255,6 +273,8 @@ def part_bc(spec, rng, counters, digests, samples, violations, known):
                         if not rd:
                             continue
                         t = hg.tg.deferred_term(rd, 2)
+                        if not buildable(hg.shadow, real, t):
+                            continue
                         try:
                             twin.mgr.register(T.ExprTask(twin.mkref(path), twin.build(t)))
                         except Exception:
@@ -283,7 +303,7 @@ def part_bc(spec, rng, counters, digests, samples, violations, known):
                 # copy_expr_from into a second manager; reference = manager built directly (M3)
                 node_r = P.node_from_obj(real.data["r"])
                 others = {lab: P.node_from_obj(real.data[lab]) for lab in real.data if lab != "r"}
-                if mode == "copy-rebind":
+                if mode.startswith("copy-rebind"):
                     relab = True
                     world2 = {"labels": dict({"s": {"dict": [[enc("sub"), node_r], [enc("other"), enc(1.0)]]}}, **others)}
                 else:
@@ -293,16 +313,20 @@ def part_bc(spec, rng, counters, digests, samples, violations, known):
                 rt = relabel if relab else (lambda t: t)
                 expected = {}
                 kept = {}
-                if mode == "copy-keep" and hg.shadow.defs:
+                if mode.endswith("-keep") and hg.shadow.defs:
+                    # definitions that already exist in the receiving manager must survive overwrite=False
                     for ck in rng.sample(sorted(hg.shadow.defs, key=repr), max(1, len(hg.shadow.defs) // 3)):
                         if ck[0] != "r":
                             continue
-                        path = mgrmon.ck_to_path(ck)
+                        path = rp(mgrmon.ck_to_path(ck))
                         l = hg.by_ck.get(ck)
                         rd = hg.readable_for(l) if l else []
                         if not rd:
                             continue
-                        t = hg.tg.deferred_term(rd, 2)
+                        t0 = hg.tg.deferred_term(rd, 2)
+                        if not buildable(hg.shadow, real, t0):
+                            continue
+                        t = rt(t0)
                         for rn in (twin, m3):
                             rn.mgr.register(T.ExprTask(rn.mkref(path), rn.build(t)))
                         kept[ck] = True
@@ -312,7 +336,7 @@ def part_bc(spec, rng, counters, digests, samples, violations, known):
                     path = rp(mgrmon.ck_to_path(ck))
                     m3.mgr.register(T.ExprTask(m3.mkref(path), m3.build(rt(term))))
                 bindings = {real.refs["r"]: twin.refs["s"]["sub"]} if relab else None
-                twin.mgr.copy_expr_from(real.mgr, "r", bindings=bindings, overwrite=(mode != "copy-keep"))
+                twin.mgr.copy_expr_from(real.mgr, "r", bindings=bindings, overwrite=not mode.endswith("-keep"))
                 counters["managers_copied"] = counters.get("managers_copied", 0) + 1
                 a, b = dict(m3.mgr.dump()), dict(twin.mgr.dump())
                 if a != b:
